@@ -134,6 +134,9 @@ func GenSleeper(cfg SleeperCfg, mine func(i int) bool, visit func(d *lref.DAG, d
 							continue // the fork round lies beyond the sleeping phase, or the forker sleeps
 						}
 						base, tips, deads := buildSleeperPrefix(cfg, rot, fks, dr.who, dr.whom, sleeper, k)
+						if base == nil {
+							continue // degenerate late fork (see buildSleeperPrefix)
+						}
 						nb := base.N()
 						for ret := -1; ret < nb; ret++ {
 							isDead := false
@@ -286,6 +289,11 @@ func buildSleeperPrefix(cfg SleeperCfg, rot int, forks [][4]int, dropWho, dropWh
 						if d.Events[p].Creator != fk[3] {
 							fo = append(fo, p)
 						}
+					}
+					if len(fo) == len(os) {
+						// the validator whose tip should be missing is not among the parents (it sleeps): the
+						// sibling would be an exact duplicate of the live event, i.e. not a second event at all
+						return nil, nil, nil
 					}
 					deads[fi] = addEvent(d, v, tips[v], fo)
 				}
